@@ -139,6 +139,10 @@ type event struct {
 	Done     bool              `json:"done"`
 	HookPred bool              `json:"hookpred,omitempty"`
 	HookSel  bool              `json:"hooksel,omitempty"`
+	// a mutator parked under its record guard (Force "guard"): logical instants at which it reached
+	// the hook holding the guard, and at which it went on
+	GuardAt     int64 `json:"guardat,omitempty"`
+	GuardResume int64 `json:"guardresume,omitempty"`
 }
 
 type snapshot map[string]claimed
@@ -159,7 +163,8 @@ type runLog struct {
 type opRun struct {
 	ev     *event
 	force  string
-	atHook func() // tells the driver that the delayed claimer has reached its hook
+	atHook func() // tells the driver that the delayed request has reached its hook
+	parked bool   // guard: only the first hit of the request is delayed
 }
 
 var (
@@ -221,6 +226,26 @@ func installHooks() {
 			}
 		}
 	}
+	// A mutator parked while it HOLDS its record's guard (a guard is a condition variable: whoever
+	// waits for it is durably blocked, so virtual time can advance). A claim that reaches the record
+	// meanwhile finds the guard busy and has to wait with the index lock released.
+	underGuard := func(...any) {
+		v, ok := byGID.Load(gid())
+		if !ok {
+			return
+		}
+		r := v.(*opRun)
+		if r.force != "guard" || r.parked {
+			return
+		}
+		r.parked = true
+		r.ev.GuardAt = seq.Add(1)
+		r.atHook()
+		time.Sleep(hookDelay)
+		r.ev.GuardResume = seq.Add(1)
+	}
+	verifhook.Set("swamp.delete.underGuard", underGuard)
+	verifhook.Set("swamp.save.underGuard", underGuard)
 	verifhook.Set("gw.shiftMatching.afterPredicate", pred)
 	verifhook.Set("gw.patchExpired.afterPredicate", pred)
 	verifhook.Set("swamp.patchExpired.afterSelect", sel(false))
